@@ -88,6 +88,8 @@ type World struct {
 	R        *Router
 	// OnLoadWallet is applied to every wallet store wrapper (crash hooks, observers)
 	OnLoadWallet func(w *WalletW)
+	// OnTokens observes proofs returned to the wallet's caller (Send*, HTLC)
+	OnTokens func(ps cashu.Proofs)
 	rotations    map[string]int
 	logPos       int
 }
@@ -325,6 +327,9 @@ func (w *World) Exec(op string) error {
 				ww.HandedOut[p.Secret] = true
 			}
 			w.Tokens = append(w.Tokens, &Token{Proofs: copyProofs(ps), Mint: ww.Default, From: ww.Idx, Kind: "plain", Fees: fees, Amount: amount, To: -1})
+			if w.OnTokens != nil {
+				w.OnTokens(ps)
+			}
 		}
 	case "sendpk":
 		to := w.Wallets[atoi(arg(2))]
@@ -338,6 +343,9 @@ func (w *World) Exec(op string) error {
 		w.note(op, err)
 		if err == nil {
 			w.Tokens = append(w.Tokens, &Token{Proofs: copyProofs(ps), Mint: ww.Default, From: ww.Idx, Kind: "p2pk", To: to.Idx, Amount: amount})
+			if w.OnTokens != nil {
+				w.OnTokens(ps)
+			}
 		}
 	case "htlc":
 		amount := uint64(atoi(arg(2)))
@@ -350,6 +358,9 @@ func (w *World) Exec(op string) error {
 		w.note(op, err)
 		if err == nil {
 			w.Tokens = append(w.Tokens, &Token{Proofs: copyProofs(ps), Mint: ww.Default, From: ww.Idx, Kind: "htlc", Preimage: htlcPreimage, Amount: amount, To: -1})
+			if w.OnTokens != nil {
+				w.OnTokens(ps)
+			}
 		}
 	case "recv":
 		ti := atoi(arg(2))
